@@ -595,6 +595,13 @@ func (c *grammarClient) PostAssign(e *Engine, st *State, lhs, rhs []ast.Expr, _ 
 				changed = true
 			}
 		}
+		// sqlOp, ok := binaryOpSQL(x.Op): the operator table kept as a function
+		if call, ok := ast.Unparen(rhs[0]).(*ast.CallExpr); ok {
+			if _, _, tf := c.g.p.binaryOpTable(); tf != nil && Callee(e.Info, call) == tf {
+				st = e.SetTag(st, lhs[0], "origin:constmap:binaryOps")
+				changed = true
+			}
+		}
 		if ix, ok := ast.Unparen(rhs[0]).(*ast.IndexExpr); ok {
 			if call, ok := ast.Unparen(ix.X).(*ast.CallExpr); ok {
 				if f := Callee(e.Info, call); f != nil && fnName(f) == "initKnownFunctions" {
